@@ -117,3 +117,28 @@ Proof.
   destruct (ents_remove id r) as [r'|] eqn:Er; [|discriminate]. injection E as <-. constructor; [|exact (IH Hr r' eq_refl)].
   intros Hin. apply Hx. exact (ents_remove_in _ _ _ _ Er Hin).
 Qed.
+
+(* reset of a Sleep that is registered (its id in its slot exactly once, and nowhere in the
+   slot it moves to): the entry is gone afterwards, everything else is as it was *)
+Lemma reset_existing_ents id d d' dr x : sorted (pending dr) -> In id (ents_at d (pending dr)) ->
+  NoDup (ents_at d (pending dr)) -> (d' <> d -> ~ In id (ents_at d' (pending dr))) ->
+  ents_at x (pending (reset_entry id d d' dr)) = if x =? d then rm id (ents_at d (pending dr)) else ents_at x (pending dr).
+Proof.
+  intros Hs Hin Hnd Hf. rewrite reset_entry_pending.
+  destruct (q_take_at d id (pending dr)) as [p1|] eqn:Et.
+  - pose proof (q_take_at_sorted _ _ _ _ Et Hs) as Hsp1.
+    assert (Hno : ~ In id (rm id (ents_at d (pending dr)))).
+    { intros H. apply (rm_in_iff _ _ _ Hnd) in H. destruct H as [_ H]. apply H. reflexivity. }
+    rewrite !ents_at_remove, !(ents_at_add _ _ _ _ Hsp1), !(ents_at_take _ _ _ _ _ Et), ?N.eqb_refl.
+    destruct (d' =? d) eqn:E2.
+    + replace d' with d in * by lia. rewrite ?N.eqb_refl.
+      destruct (x =? d) eqn:E1; [|reflexivity].
+      rewrite (rm_app_fresh _ _ Hno). apply rm_fresh. exact Hno.
+    + replace (d =? d') with false by lia.
+      destruct (x =? d') eqn:E1.
+      * replace x with d' by lia. rewrite E2. apply rm_app_fresh. apply Hf. lia.
+      * destruct (x =? d) eqn:E3; [|reflexivity]. apply rm_fresh. exact Hno.
+  - exfalso. apply q_take_at_none in Et. clear -Et Hin. induction (ents_at d (pending dr)) as [|a r IH]; [contradiction|].
+    cbn [ents_remove] in Et. destruct (a =? id) eqn:E; [discriminate|]. destruct Hin as [->|Hin]; [lia|].
+    destruct (ents_remove id r); [discriminate|]. exact (IH Hin eq_refl).
+Qed.
